@@ -236,15 +236,13 @@ theorem pushFrs_mem (k : Kcp) (full : Bool) (now : U32) : ∀ fr ∈ SysW.pushFr
     exact ⟨s, hs1, hac, e5, e4, e3, e1, e2⟩
   · cases hfr
 
-/-- **the datagrams of one flush**: with the log extended by what the flush admits, every datagram
-is a non-empty list of good frames; `snd_buf` keeps holding PUSH segments of the connection -/
-theorem flush_dg {sn0 c : U32} {k : Kcp} {L : List Content} (h : InvS sn0 k L) (hc : k.conv = c)
-    (hb : BufC c k.snd_buf) (full : Bool) (now : U32) (hp : (flush k full now).panic = false)
-    (hne : ∀ o ∈ (flush k full now).outs, 0 < o.length) :
-    ∀ o ∈ (flush k full now).outs, DgOk c sn0 (L ++ admitted k (flush k full now).k) o := by
+/-- **the frames of one flush**: with the log extended by what the flush admits, every frame the flush
+writes (`SysW.flushFrs`: ACK, probe and PUSH frames in order) is good -/
+theorem flushFrs_ok {sn0 c : U32} {k : Kcp} {L : List Content} (h : InvS sn0 k L) (hc : k.conv = c)
+    (hb : BufC c k.snd_buf) (full : Bool) (now : U32) :
+    ∀ fr ∈ SysW.flushFrs k full now, FrOk c sn0 (L ++ admitted k (flush k full now).k) fr := by
   have hI := (flush_invS h full now).1
   generalize L ++ admitted k (flush k full now).k = L' at hI
-  obtain ⟨gs, hgs, hflat⟩ := SysW.flush_frames k full now hp
   have hsim := flush_buf_sim k full now
   have hbA : BufC c (flushAdmit (flushA k now).k now).buf := by
     have hA := flushA_keep k now
@@ -252,9 +250,8 @@ theorem flush_dg {sn0 c : U32} {k : Kcp} {L : List Content} (h : InvS sn0 k L) (
     rw [hA.1.conv, hc]
     apply admitSegs_bufC
     rw [hA.2.snd_buf]; exact hb
-  -- every frame of the flush is good
-  have hall : ∀ fr ∈ SysW.flushFrs k full now, FrOk c sn0 L' fr := by
-    intro fr hfr
+  intro fr hfr
+  have hall : FrOk c sn0 L' fr := by
     unfold SysW.flushFrs at hfr
     rcases List.mem_append.mp hfr with h1 | h1
     · rcases List.mem_append.mp h1 with h2 | h2
@@ -278,6 +275,16 @@ theorem flush_dg {sn0 c : U32} {k : Kcp} {L : List Content} (h : InvS sn0 k L) (
         unfold content at this
         rw [q3, q4] at this
         rw [e3, e5]; exact this
+  exact hall
+
+/-- **the datagrams of one flush**: with the log extended by what the flush admits, every datagram
+is a non-empty list of good frames -/
+theorem flush_dg {sn0 c : U32} {k : Kcp} {L : List Content} (h : InvS sn0 k L) (hc : k.conv = c)
+    (hb : BufC c k.snd_buf) (full : Bool) (now : U32) (hp : (flush k full now).panic = false)
+    (hne : ∀ o ∈ (flush k full now).outs, 0 < o.length) :
+    ∀ o ∈ (flush k full now).outs, DgOk c sn0 (L ++ admitted k (flush k full now).k) o := by
+  obtain ⟨gs, hgs, hflat⟩ := SysW.flush_frames k full now hp
+  have hall := flushFrs_ok h hc hb full now
   intro o ho
   rw [hgs] at ho
   obtain ⟨g, hg, rfl⟩ := List.mem_map.mp ho
